@@ -13,8 +13,16 @@ from vlib import *
 
 TICK_MS = 40            # one logical tick of the model in a forced run
 WATCHDOG_MS = 900       # a forced run that makes no progress for this long is 'stuck'
-TOL_US = 2000           # never_early tolerance (timer granularity), microseconds
-GRAN_US = 2000          # due_order: due times closer than this are not ordered
+# Timer granularity: libevent 2.1 reads CLOCK_MONOTONIC_COARSE unless the base is configured with
+# EVENT_BASE_FLAG_PRECISE_TIMER (uscxml does not), so a timer's due time is computed from a clock that lags the
+# real one by up to one kernel tick (clock_getres, 4 ms at HZ=250); +1 ms for the codec's whole milliseconds,
+# +0.2 ms measurement slack.
+try:
+    COARSE_US = int(round(time.clock_getres(6) * 1e6))      # 6 = CLOCK_MONOTONIC_COARSE
+except Exception:
+    COARSE_US = 4000
+TOL_US = COARSE_US + 1200   # never_early tolerance, microseconds
+GRAN_US = COARSE_US + 1200  # due_order: due times closer than this are not ordered
 
 # witnesses of the _refuted theorems (Properties_C09.v), program + schedule of the model
 W_PROG = 'S:1:1:0:1,C:1'
@@ -158,8 +166,14 @@ def codec_cases(c, corpus):
 def check_codec(c, vdriver, vmodel, corpus):
     cases, ncorpus, nex, nrand = codec_cases(c, corpus)
     # XML attribute value normalisation turns a literal tab into a space: the chart carries it as &#9; (kept verbatim)
-    model = run_lines_sharded(vmodel, ['parse %s' % hexs(s) for s in cases])[0]
     impl, crashes = run_lines_sharded(vdriver, ['delay_parse %s' % hexs(s) for s in cases])
+    # which codec variant is the implementation?  "4294968s" tells the width of delayMs; texts without a digit tell
+    # whether strTo initialises its result (an uninitialised read may show any value, 0 included: all three must be 0)
+    wit = run_lines(vdriver, ['delay_parse %s' % hexs(w) for w in (b'4294968s', b'abc', b' ', b's')])[1]
+    wide = 1 if kv(wit[0]).get('ms') == '4294968000' else 0
+    init = 1 if all(kv(w).get('ms') == '0' for w in wit[1:]) else 0
+    dv = '%d%d' % (wide, init)
+    model = run_lines_sharded(vmodel, ['parse %s %s' % (dv, hexs(s)) for s in cases])[0]
     dis, fails = [], []
     hist = {'spec_defined': 0, 'unit_s': 0, 'unit_ms': 0, 'unitless': 0, 'fraction': 0, 'impl_zero': 0, 'model_ub': 0}
     nontriv = 0
@@ -185,7 +199,7 @@ def check_codec(c, vdriver, vmodel, corpus):
             # oracle: the whole milliseconds of the delay, to within the timer granularity of 1 ms
             if not (spec - 1 <= got <= spec):
                 fails.append((s, spec, got))
-    return {'cases': len(cases), 'corpus': ncorpus, 'exhaustive': nex, 'random': nrand, 'hist': hist,
+    return {'variant': {'dpv_wide': wide, 'dpv_init': init}, 'cases': len(cases), 'corpus': ncorpus, 'exhaustive': nex, 'random': nrand, 'hist': hist,
             'nontrivial': nontriv, 'disagreements': dis, 'oracle_failures': fails, 'crashes': crashes,
             'samples': [(cases[k].decode('latin-1'), model[k], impl[k]) for k in (0, 1, min(len(cases) - 1, 5000), len(cases) - 1)]}
 
@@ -224,7 +238,7 @@ def run(c):
         'event\'s running callback; event_free inside the callback is legal (Delay.v, explicit rules)',
         'std::recursive_mutex; UUIDs of different sends differ (wf_prog)',
         'the unit of interleaving is the code between two USCXML_VERIF_POINTs; memory-model effects below that are not modelled',
-        'never_early is checked against std::chrono::steady_clock with a tolerance of %d us (timer granularity); no upper bound on lateness is asserted' % TOL_US,
+        'never_early is checked against std::chrono::steady_clock with a tolerance of %d us = resolution of CLOCK_MONOTONIC_COARSE (%d us, the clock libevent 2.1 uses for timers by default) + 1 ms (whole milliseconds of the codec) + 0.2 ms; no upper bound on lateness is asserted' % (TOL_US, COARSE_US),
         'delay strings: "C" locale, glibc strtod correctly rounded, x86-64 double->uint32 conversion only for values that fit',
     ]
     c.cov['trusted_base'] += ['harness/vd_delay.cpp: director, interposed event_new/event_free/event_del (live-set of timer objects)',
@@ -236,7 +250,7 @@ def run(c):
     # ---- 2. schedule replay
     variant, vnotes = detect_variant(vdriver, vmodel)
     c.notes['defect_vector'] = {'dv_cb_takes_entry': variant[0], 'dv_ready_checks': variant[1], 'dv_cancel_noblock': variant[2],
-                                'witness_runs': vnotes}
+                                'witness_runs': vnotes, 'codec': cod['variant']}
     maxsw = 4 if c.tier == 'quick' else 6
     cap = 400 if c.tier == 'quick' else 3000
     jobs = []   # (prog, sched, mclass, steps, mtrace)
@@ -254,8 +268,8 @@ def run(c):
         o = kv(vm(vmodel, ['simc %s %s %s' % (variant, w['prog'], w['sched'])])[0])
         wj.append((w['prog'], o['sched'], o['class'], o['steps'], o['trace']))
     jobs = wj + jobs
-    if c.tier == 'quick' and len(jobs) > 700:
-        keep = jobs[:len(wj)] + c.rng.sample(jobs[len(wj):], 700 - len(wj))
+    if c.tier == 'quick' and len(jobs) > 600:
+        keep = jobs[:len(wj)] + c.rng.sample(jobs[len(wj):], 600 - len(wj))
         jobs = keep
 
     def work(j):
@@ -457,10 +471,12 @@ def replay(path_or_vdriver, *a, **kw):
             print('\n'.join(l for l in out.split('\n') if l.startswith('@@')))
         return 0
     vdriver, prog, steps = path_or_vdriver, a[0], a[1]
-    tries = kw.pop('tries', 3)
+    tries = kw.pop('tries', 4)
     r = None
     for _ in range(tries):
         r = replay_once(vdriver, prog, steps, **kw)
-        if r.get('timing', 'ok') == 'ok':
+        # a run whose timing did not realise the schedule (stalled machine: a tick was missed, an expected arrival
+        # did not come in time) says nothing about the schedule: repeat it; a real mismatch persists
+        if r.get('timing', 'ok') == 'ok' and not r.get('res', '').startswith('fail'):
             return r
     return r
